@@ -15,7 +15,8 @@ import ast
 
 from ..core import AnalysisError, finish, unparse
 from ..dataflow import Flow, chain, call_name
-from ..terms import Terms, subterms
+from ..terms import Terms, subterms, owner_terms, unsite, match, V, ANY, \
+    show, alternatives
 from ..util import calls_in, qual, formals, returns_of, has_fact
 
 WR = "rig.place_and_route.wrapper"
@@ -218,54 +219,122 @@ def r2_description(program, rep):
               node=fn2)
 
 
+def _core_range(T, fn):
+    """(range call, term of the slice X in range(X.start, X.stop)) for the
+    only such range in ``fn`` (nested helpers included)."""
+    found = []
+    for c in ast.walk(fn):
+        if isinstance(c, ast.Call) and isinstance(c.func, ast.Name) and \
+                c.func.id == "range" and len(c.args) == 2:
+            view = owner_terms(T, c)
+            env = _comp_env(view, c)
+            n = view.cfg.node_containing(c)
+            lo, hi = [view.term(a, n, env) for a in c.args]
+            if lo[0] == "attr" and lo[2] == "start" and hi[0] == "attr" \
+                    and hi[2] == "stop" and lo[1] == hi[1]:
+                found.append((c, unsite(lo[1])))
+    if len(found) != 1:
+        raise AnalysisError("%s: core range not found" % fn.name)
+    return found[0]
+
+
+def _comp_env(view, expr):
+    env = {}
+    comps = []
+    p = getattr(expr, "_parent", None)
+    while p is not None and not isinstance(p, (ast.FunctionDef,
+                                               ast.AsyncFunctionDef)):
+        if isinstance(p, (ast.ListComp, ast.SetComp, ast.GeneratorExp,
+                          ast.DictComp)):
+            comps.append(p)
+        p = getattr(p, "_parent", None)
+    t = getattr(view, "t", view)
+    for comp in reversed(comps):
+        n = t.cfg.node_containing(comp)
+        for g in comp.generators:
+            it = t.term(g.iter, n, env)
+            t._bind_target(g.target, t._elem(it), env)
+    return env
+
+
 def r3_cores(program, rep):
     rt = program.get(NER + ":route")
-    rfl = Flow(rt)
     am = program.get(PU + ":build_application_map")
-    afl = Flow(am)
-    forms = []
-    for fn, fl in ((rt, rfl), (am, afl)):
-        rg = [c for c in ast.walk(fn) if isinstance(c, ast.Call) and
-              isinstance(c.func, ast.Name) and c.func.id == "range" and
-              len(c.args) == 2 and unparse(c.args[0]).endswith(".start")]
-        if len(rg) != 1:
-            raise AnalysisError("%s: core range not found" % fn.name)
-        c = rg[0]
-        node = fl.cfg.node_containing(c)
-        lo, hi = c.args
-        ok = isinstance(lo, ast.Attribute) and isinstance(hi, ast.Attribute)\
-            and lo.attr == "start" and hi.attr == "stop" and \
-            chain(lo.value) == chain(hi.value)
-        x = chain(lo.value) if ok else None
-        src = None
-        if x:
-            ds = fl.reaching(x, node)
-            if len(ds) == 1 and ds[0].mode == "assign":
-                src = unparse(ds[0].value)
-        forms.append((fn, ok, x, src, c))
-    (f1, ok1, x1, s1, c1), (f2, ok2, x2, s2, c2) = forms
-    rep.check(ok1 and s1 == "allocations.get(sink, {}).get(core_resource, "
-              "None)", "C01-R3", qual(f1), "the router emits one core route "
+    TR, TA = Terms(rt), Terms(am)
+    c1, x1 = _core_range(TR, rt)
+    c2, x2 = _core_range(TA, am)
+    P = lambda n: ("param", n)      # noqa: E731
+    m1 = match(("get", ("get", P("allocations"), V("sink"), ANY),
+                P("core_resource"), ("const", None)), x1)
+    ok1 = m1 is not None and m1["sink"] == (
+        "elem", ("attr", ("elem", P("nets")), "sinks"))
+    rep.check(ok1, "C01-R3", qual(rt), "the router emits one core route "
               "for each core in [X.start, X.stop) of the sink's own "
               "allocation of the core resource",
-              construct="router core range %s" % s1, node=c1)
-    rep.check(ok2 and s2 == "allocations[vertex].get(core_resource, "
-              "slice(0, 0))", "C01-R3", qual(f2), "the loader map takes the "
+              construct="router core range %s" % show(x1), node=c1)
+    VERT = ("comp", ("elem", ("items", P("vertices_applications"))), 0)
+    m2 = match(("get", ("item", P("allocations"), V("v")),
+                P("core_resource"), V("dflt")), x2)
+    ok2 = m2 is not None and m2["v"] == VERT
+    rep.check(ok2, "C01-R3", qual(am), "the loader map takes the "
               "cores in [X.start, X.stop) of the vertex's own allocation of "
-              "the core resource", construct="loader core range %s" % s2,
-              node=c2)
+              "the core resource", construct="loader core range %s" %
+              show(x2), node=c2)
+    # every net gets a tree of its own, grown from its own source
+    NET = ("elem", P("nets"))
+    okt = False
+    detail = ""
+    for n in TR.cfg.nodes:
+        st = n.ast
+        if n.kind == "stmt" and isinstance(st, ast.Assign) and \
+                len(st.targets) == 1 and \
+                isinstance(st.targets[0], ast.Subscript):
+            tgt = TR.term(st.targets[0], n)
+            if tgt[0] != "item" or tgt[2] != NET:
+                continue
+            rets = [TR.term(r.value) for r in returns_of(rt)
+                    if r.value is not None]
+            if tgt[1] not in rets:
+                continue
+            okt = True
+            for alt in alternatives(TR.term(st.value, n)):
+                m = match(("comp", ("call", ("global", V("f")), V("args"),
+                                    V("kw")), 0), alt)
+                if m is None or m["f"] not in ("ner_net",
+                                               "avoid_dead_links"):
+                    okt = False
+                    detail = show(alt)
+                elif m["f"] == "ner_net" and (not m["args"] or unsite(
+                        m["args"][0]) != ("item", P("placements"),
+                                          ("attr", NET, "source"))):
+                    okt = False
+                    detail = "tree not grown from the net's source"
+    rep.check(okt, "C01-R3", qual(rt), "each net's tree is generated for "
+              "that net (from the chip of its own source) in the iteration "
+              "that stores it: no tree object is shared between nets",
+              construct="tree per net", node=rt,
+              fail="the tree stored for a net may be an object obtained "
+                   "elsewhere (%s): sink routes added for one net then "
+                   "appear in another net's tree" % detail)
     rep.check(ok1 and ok2, "C01-R3", "router/loader", "both use the same "
               "half-open interval of the same allocation slice: the cores "
               "packets are delivered to are the cores the binary is loaded "
               "on", construct="core set agreement",
               fail="the router and the loader do not iterate the same "
                    "range of the allocation slice")
-    t = unparse(f2)
-    ok = "chip_cores = application_map[application][placements[vertex]]" \
-        in t and "chip_cores.update(range(" in t
-    rep.check(ok, "C01-R3", qual(f2), "cores are filed under the vertex's "
+    ok = False
+    for c in calls_in(am, "update") + calls_in(am, "add"):
+        n = TA.cfg.node_containing(c)
+        recv = TA.term(c.func.value, n)
+        APP = ("comp", ("elem", ("items", P("vertices_applications"))), 1)
+        want = ("item", ("item", V("map"), APP),
+                ("item", P("placements"), VERT))
+        if match(want, recv) is not None and c.args and \
+                TA.term(c.args[0], n) == TA.term(c2, n):
+            ok = True
+    rep.check(ok, "C01-R3", qual(am), "cores are filed under the vertex's "
               "application and the chip it was placed on",
-              construct="application map keys", node=f2)
+              construct="application map keys", node=am)
 
 
 def _conds(fl, node):
@@ -331,6 +400,7 @@ def r6_components(program, rep):
     C10.r1_tables(program, rep)
     C04.r2_default(program, rep)
     C04.r3_ranges(program, rep)
+    C04.r5_contract(program, rep)
     C03.r5_reconnect(program, rep)
     C03.r3_growth(program, rep)
     rep.note("R6 re-runs C10-R1, C04-R2, C04-R3, C03-R3/R4/R5 (reported "
